@@ -1,5 +1,5 @@
 From Coq Require Import List NArith Arith.
-From SK Require Import lib.LGraph lib.Mono model.C11_Model proof.C11_Aut proof.C11_WL proof.C11_Dedup proof.C11_Main proof.C11_Comp proof.C11_VF2 proof.C11_Vocab proof.C11_Sig proof.C11_Anchor model.C11_State proof.C11_StateProof.
+From SK Require Import lib.LGraph lib.Mono model.C11_Model proof.C11_Aut proof.C11_WL proof.C11_Dedup proof.C11_Main proof.C11_Comp proof.C11_VF2 proof.C11_Vocab proof.C11_Sig proof.C11_Anchor model.C11_State proof.C11_StateProof model.C11_Partial proof.C11_PartialProof.
 Import ListNotations.
 
 (** Vocabulary (definitions in proof/C11_Aut.v, written out here for the reader):
@@ -231,6 +231,16 @@ Theorem C11_partial_prune :
     forall out, partial_prune key fn h k xs = Some out -> subseq out xs.
 Proof. exact partial_prune_all. Qed.
 Print Assumptions C11_partial_prune.
+
+(** ... and over the list of hosts the class stores: pruning happens only for exactly one host; otherwise the (non-empty)
+    list is returned unchanged; always a subsequence. *)
+Theorem C11_partial_prune_hosts :
+  forall (X : Type) (key : X -> mapping) (fn : nlab -> N) (k : nat) (xs : list X),
+    (forall h, partial_prune_hosts key fn [h] k xs = partial_prune key fn h k xs) /\
+    (forall hosts, length hosts <> 1%nat -> xs <> [] -> partial_prune_hosts key fn hosts k xs = Some xs) /\
+    (forall hosts out, partial_prune_hosts key fn hosts k xs = Some out -> subseq out xs).
+Proof. exact partial_prune_hosts_all. Qed.
+Print Assumptions C11_partial_prune_hosts.
 
 (** Clause 4 (pruning), first half: every raw match is represented by a kept match — the same list element, the
     same set of (pattern node, host node) items, or its items are those of the kept match with the pattern node
